@@ -36,7 +36,8 @@ RULE = ('kind=trace: seeded random op sequences (<= 40 ops) over Schedule (deadl
         'before / just after the next deadline), single worker segments resumed by the event or by the time-out (both when '
         'both are possible), single action runs, actions that call Schedule/cancel themselves, settle; kind=eager: the same '
         'with the worker and actions run to quiescence after every op; kind=exh: every sequence of length <= 5 (quick 4) over '
-        '8 ops at resolution 4; kind=scen: hand-written scenarios (new earliest deadline during sleep(0), burst during '
+        '8 ops at resolution 4 (duplicates of an executed label sequence are not re-sent to the model); kind=real: random op '
+        'sequences on the REAL gevent hub/Event/spawn with only time virtual, checked by the monitor alone; kind=scen: hand-written scenarios (new earliest deadline during sleep(0), burst during '
         'sleep(0), set()/time-out coincidence in both orders, cancel of head while waiting, same-tick ties in both '
         'registration orders); resolutions 1/64, 1/4, 1 s and 0.  Ops that are not enabled are skipped. non-trivial = at '
         'least one worker segment and one Schedule executed; distinct by canonical JSON of (case, observation)')
@@ -54,8 +55,9 @@ MANIFEST = {
              'cancel / clock-advance / worker-segment / action-run labels from the initial state of the Gallina small-step '
              'transcription of TimerQueue (one label = one atomic segment between gevent yield points); the transcription is '
              'replayed label by label against the real TimerQueue under a virtual clock and a deterministic scheduler on '
-             '~1.5k (quick) / ~25k (thorough) traces per run, comparing queue snapshot, event flag, worker position, '
-             'resumability, spawned FIFO and run log.'),
+             '~2.1k (quick) / ~27k (thorough) traces per run, comparing queue snapshot, event flag, worker position, '
+             'resumability, spawned FIFO and run log; 250 / 3000 further runs on the real gevent hub are checked by the '
+             'independent monitor (once, never early, cancelled never runs, order, nothing due left at quiescence).'),
     'note': ('Trusted: Coq kernel; harness/c10_vclock.py as a model of gevent Event/sleep/spawn; sampling of interleavings by the '
              'harness. Float rounding for non-dyadic resolutions (default 0.01) is outside the model. All theorems closed under '
              'the global context.'),
@@ -231,7 +233,7 @@ def scenarios():
 def gen_cases(tier, seed):
   quick = tier == 'quick'
   out = scenarios()
-  n = 900 if quick else 14000
+  n = 900 if quick else 20000
   for i in range(n):
     rng = C.case_rng(seed, PID, i)
     r = RES[i % 4] if i % 7 else rng.choice(RES)
